@@ -76,7 +76,7 @@ func scenC19(r *Run) {
 	broker := push.NewBroker(service)
 	broker.Timeout = timeout
 	broker.HeartBeat = heartbeat
-	dropped := map[string][]int{} // "c|t" -> messages handed to OnUnsubscribe
+	dropped := map[string][]int{}    // "c|t" -> messages handed to OnUnsubscribe
 	unsubAt := map[string][]uint64{} // "c|t" -> event numbers at which the broker removed the subscription
 	broker.OnUnsubscribe = func(ctx context.Context, id string, topic string, messages []push.Message) {
 		for _, m := range messages {
